@@ -39,6 +39,7 @@ For each mutant k in 1..3 create the directory {wt}/mutants/m<k>/ containing:
 Procedure for each mutant: edit the source, run the full test-suite (must be all passed), run demo.py (must fail), save `git diff > mutants/m<k>/patch.diff`, then `git checkout -- graphslam` to restore, run demo.py again (must pass). Leave the worktree clean (only the untracked mutants/ directory) when you finish. Do not commit. Report back a short list: for each mutant, its summary, and confirmation of the three runs (tests pass with mutant, demo fails with mutant, demo passes without).'''
 
 IDEAS = {
+    "SEVENTH": "Ideas: combine a RARE PRECONDITION with a QUIET EFFECT - the result is still plausible, finite and self-consistent, only different from the definition in the property by a small or structured amount (a factor close to 1, one component of many, one vertex of many, only the last iteration, only the second call, only every other edge). Look at: evaluation-ORDER dependence (the result depends on which of two independent calls came first, on dictionary / set iteration order, on the order in which edges mention a vertex, on whether a property was read before it was written); result TYPES, dtypes, shapes and memory layout as part of the contract (a float where an array is documented, a view where a copy is documented, a 1 x n matrix for an n-vector, float32 somewhere inside, a read-only result); ARGUMENT VALIDATION that became too strict or too lax (legal inputs rejected or silently coerced: negative ids, ids given as strings of digits, zero-length lists, a graph without edges or without vertices, one-vertex graphs, an edge listed twice as the same object, the same vertex object listed twice); DEFAULTS (a default argument value changed or evaluated once at import time; class attributes used as per-instance defaults; module constants imported by value into another module and then changed); what happens at the documented LIMITS of each argument (tol = 0, tol >= 1, max_iter = 0 / 1 / very large, perturbations of exactly the tolerance, exactly representable boundaries); and INTERACTIONS between two public features that are each tested alone (custom edge types together with fixed vertices and .g2o export; landmark offsets together with relabelled ids; equals() on graphs that were loaded, optimized and exported; numerical Jacobians on edges whose vertices are shared with analytic edges).",
     "SIXTH": "Ideas: a slip applied CONSISTENTLY at two or more sites, so that the library's functions still agree with each other (e.g. error and Jacobian changed together, export and import changed together, an operation and its inverse changed together) while the result no longer matches the mathematical definition in the property; branches on THRESHOLDS that ordinary values never cross (a norm below 1e-3 or above 1e3, more than 50 vertices, chi2 above 1e6 or below 1e-20, an angle within 1e-4 of pi/2, information entries above 1e8, ids above 2^31 or 2^53); dependence on what happened EARLIER in the process (number of Graph objects created so far, a class attribute set by the first instance, import order, a warning that is only emitted once, state left behind by an exception that the caller caught); standard-library COPYING and SERIALISATION of the library's objects (copy.copy / copy.deepcopy / pickle of poses, vertices, edges, graphs, results - the copies are then used like the originals); the Python numeric tower at the API boundary (bool, int, Fraction, Decimal, numpy float32/longdouble scalars, strings of digits where a number is expected, 0-d arrays) and containers (dict views, generators, numpy object arrays); sub-classing hooks that users rely on (a subclass overriding calc_error / is_valid / to_g2o / from_g2o, or a pose subclass with extra attributes that must survive operations); what is REPORTED rather than computed (fields of the optimization result, the order and count of iteration records, logging / printed table contents, return values of methods that are normally called for their side effect); and partial failure (an exception in the middle of optimize / from_g2o / to_g2o: what state are the caller's objects and files left in).",
     "FIFTH": "Ideas: conditions that hold only in rare-but-legal GEOMETRIC configurations (collinear or coincident vertices, a landmark exactly at the sensor position, zero-length odometry, rotations of exactly 90/120/180 degrees about a coordinate axis or the diagonal, quaternions with one or two zero components, angles that are exact multiples of pi/2, negative zero -0.0, components that are exactly equal to each other, measurements exactly equal to the prediction so that the error is exactly zero); the KIND of container or element handed to the public API (tuples or generators instead of lists, numpy integer ids, numpy bool flags, 0-d arrays, user subclasses of the pose / vertex / edge classes, keyword versus positional arguments, read-only arrays); rarely used ENTRY POINTS and PARAMETER VALUES (verbose=True, max_iter=0 or 1, tol=0 or a huge tol, fix_first_pose on a graph whose first vertex is a landmark, the helpers in load.py, plotting helpers, calc_chi2_gradient_hessian of a single edge, to_g2o of a single vertex/edge); SEQUENCES that mix features (load -> edit -> optimize -> export -> load; two graphs alive at once that share vertex or edge objects; optimizing, adding information, optimizing again; copying poses between graphs); moderately LARGE sizes (50+ vertices, 100+ edges, ids that are not 0..N-1) where an index, a sort, a dictionary key or a sparse-matrix assembly step matters; and ACCUMULATION effects (something that is right once and drifts when repeated 10..1000 times).",
 }
